@@ -37,6 +37,7 @@ ENCODED = ["twisted.web.http:HTTPChannel.lineReceived", "twisted.web.http:HTTPCh
 # shared machinery: the lifted world
 # ------------------------------------------------------------------------------------------------
 
+lbytes.FAST_CLASS = True  # `c in b"<class>"` on a symbolic byte: one fork instead of one per range
 lbytes.NORMALISE = True   # all-concrete pieces of a partly symbolic buffer become real strs again
 
 LB = lift.lift("twisted.protocols.basic", names=["LineReceiver", "_PauseableMixin"])
